@@ -64,6 +64,20 @@ theorem updSet_idem (sid : Nat) (f : Node → Node)
     Node.updSet sid f (Node.updSet sid f n) = Node.updSet sid f n :=
   Nima.updSet_idem sid f hf hff n
 
+/-- The same two laws for whole documents. -/
+theorem doc_updSet_idem (sid : Nat) (f : Node → Node)
+    (hf : ∀ vs o m r, (f (.set sid vs o m r)).setSid? = some sid)
+    (hff : ∀ vs o m r, f (f (.set sid vs o m r)) = f (.set sid vs o m r)) (d : Doc) :
+    (d.updSet sid f).updSet sid f = d.updSet sid f :=
+  Doc.updSet_idem sid f hf hff d
+
+theorem doc_updSet_comm (s t : Nat) (f g : Node → Node) (hst : s ≠ t)
+    (hf : ∀ vs o m r, f (Node.updSet t g (.set s vs o m r)) = Node.updSet t g (f (.set s vs o m r)))
+    (hg : ∀ vs o m r, g (Node.updSet s f (.set t vs o m r)) = Node.updSet s f (g (.set t vs o m r)))
+    (d : Doc) :
+    (d.updSet t g).updSet s f = (d.updSet s f).updSet t g :=
+  Doc.updSet_comm s t f g hst hf hg d
+
 /-! ## 2. Idempotence of `set` -/
 
 /-- FULL statement: a successful `set p v`, repeated, yields the same document. -/
